@@ -64,8 +64,13 @@ def run(ctx):
         try:
             if kind == 'numpy':
                 src_arr = gen.noncontiguous(arr, k // 12) if (k // 6) % 2 == 1 else arr
-                desc['memory_layout'] = 'non-contiguous' if src_arr is not arr else 'C'
-                ctx.stats['numpy_noncontiguous'] += int(src_arr is not arr)
+                if (k // 6) % 4 == 2:
+                    src_arr, arr = gen.broadcast_view(arr, k // 24)   # zero-stride view; `arr` = the values it denotes
+                    desc['memory_layout'] = 'broadcast view'
+                    ctx.stats['numpy_broadcast_view'] += 1
+                else:
+                    desc['memory_layout'] = 'non-contiguous' if src_arr is not arr else 'C'
+                    ctx.stats['numpy_noncontiguous'] += int(src_arr is not arr)
                 conv.numpy_to_sgz(src_arr, out, q, bs)
                 want = sha(arr)
             else:
